@@ -147,6 +147,11 @@ impl CraneliftCompiler {
             builder.seal_all_blocks();
             builder.finalize();
         }
+        #[cfg(rbpf_verif)]
+        crate::verif::record_clif(
+            format!("{}", ctx.func.display()),
+            self.helper_func_refs.iter().map(|(k, r)| (*k, format!("{}", r))).collect(),
+        );
 
         self.module.define_function(func_id, &mut ctx).unwrap();
         self.module.finalize_definitions().unwrap();
